@@ -256,9 +256,10 @@ Example C36_url_ex :
 Proof. repeat split; vm_compute; reflexivity. Qed.
 
 (* ---- parent location ---- *)
-(* branch named like its remote: what is read back is git_url_to_bzr_url of the stored
-   URL and the stored merge ref ... *)
-Theorem C36_parent_location_guarded : forall ssh_reser rel name location cfg L branch ref v,
+(* any named branch, rel L = L (URL unrelated to the branch's own), plain known-scheme L:
+   what _get_parent_location reads back splits into L and the normalised stored ref.
+   (F-C36b, repaired in /repo: the merge ref used to be read from branch.<remote>.) *)
+Theorem C36_parent_location : forall ssh_reser rel name location cfg L branch ref v,
   name <> [] ->
   bzr_url_to_git_url location = Ok (L, branch, ref) ->
   eff_ref branch ref = Some v -> wf_bytes v = true ->
@@ -268,24 +269,26 @@ Theorem C36_parent_location_guarded : forall ssh_reser rel name location cfg L b
                  bzr_url_to_git_url u
                  = Ok (L, ne_opt (snd (norm_br None (Some v))), ne_opt (fst (norm_br None (Some v)))).
 Proof. exact parent_location_equivalent. Qed.
-Print Assumptions C36_parent_location_guarded.
+Print Assumptions C36_parent_location.
 
-(* ... but _get_related_merge_branch reads branch.<remote>.merge while set_parent writes
-   branch.<name>.merge: for any other branch name the parent's branch is lost *)
-Theorem C36_parent_location_refuted :
-  exists name remote location cfg',
-    set_parent (fun l => l) name location {| cfg_url := None; cfg_merge := [] |} = Ok cfg' /\
-    bzr_url_to_git_url location = Ok (asc "git://h/r", Some (asc "b"), None) /\
-    get_parent_location (fun l => l) remote cfg' = Ok (Some (asc "git://h/r")).
-Proof. exact parent_roundtrip_refuted. Qed.
-Print Assumptions C36_parent_location_refuted.
+(* the intermediate fact, without the URL hypotheses *)
+Theorem C36_parent_location_stored : forall ssh_reser rel name location cfg L branch ref v,
+  name <> [] ->
+  bzr_url_to_git_url location = Ok (L, branch, ref) ->
+  eff_ref branch ref = Some v ->
+  exists cfg', set_parent rel name location cfg = Ok cfg' /\
+               get_parent_location ssh_reser name cfg'
+               = match git_url_to_bzr_url ssh_reser (rel L) None (Some v) with
+                 | Ok l => Ok (Some l)
+                 | Err e => Err e
+                 end.
+Proof. exact parent_roundtrip_guarded. Qed.
+Print Assumptions C36_parent_location_stored.
 
 Example C36_parent_ex :
   exists cfg',
-    set_parent (fun l => l) (asc "origin") (asc "git://h/r,branch=b")
+    set_parent (fun l => l) (asc "foo") (asc "git://h/r,branch=b")
                {| cfg_url := None; cfg_merge := [] |} = Ok cfg' /\
-    get_parent_location (fun l => l) (asc "origin") cfg' = Ok (Some (asc "git://h/r,branch=b")).
-Proof.
-  exists {| cfg_url := Some (asc "git://h/r"); cfg_merge := [(asc "origin", asc "refs/heads/b")] |}.
-  split; vm_compute; reflexivity.
-Qed.
+    bzr_url_to_git_url (asc "git://h/r,branch=b") = Ok (asc "git://h/r", Some (asc "b"), None) /\
+    get_parent_location (fun l => l) (asc "foo") cfg' = Ok (Some (asc "git://h/r,branch=b")).
+Proof. exact parent_roundtrip_example. Qed.
